@@ -51,7 +51,7 @@ def design_source(cells: list[Cell], ctx: str, ename="Cells"):
         if c.setup:
             lines.append(c.setup)
     lines.append(f"class {ename}(cohdl.Entity):")
-    if ctx == "clocked":
+    if ctx.startswith("clocked"):
         lines.append("    clk = Port.input(Bit)")
     for i, c in enumerate(cells):
         for n, t in c.ins:
@@ -63,7 +63,7 @@ def design_source(cells: list[Cell], ctx: str, ename="Cells"):
         if c.local:
             for ln in c.local.format(**_names(i, c)).splitlines():
                 lines.append("        " + ln)
-    if ctx == "clocked":
+    if ctx.startswith("clocked"):
         lines.append("        @std.sequential(std.Clock(self.clk))")
     else:
         lines.append("        @std.concurrent")
@@ -155,9 +155,13 @@ def run_cells(rep, wd: Workdir, cells: list[Cell], ctx: str, timeout_ms=30000, w
 
 
 def _drive(sim, ctx, inputs):
-    if ctx == "clocked":
+    if ctx.startswith("clocked"):
+        # "clocked" = one rising edge, "clockedN" = N rising edges with stable inputs
         sim.elaborate({"clk": 0, **inputs})
         sim.instant({"clk": 1})
+        for _ in range(int(ctx[7:] or 1) - 1):
+            sim.instant({"clk": 0})
+            sim.instant({"clk": 1})
     else:
         sim.elaborate(inputs)
 
